@@ -2333,7 +2333,7 @@ impl SctpInner {
         }
 
         let old_cumulative_tsn = self.cumulative_tsn_ack.load(Ordering::SeqCst);
-        if new_cumulative_tsn > old_cumulative_tsn {
+        if tsn_gt(new_cumulative_tsn, old_cumulative_tsn) {
             debug!(
                 "FORWARD TSN: moving cumulative ack from {} to {}",
                 old_cumulative_tsn, new_cumulative_tsn
@@ -2343,7 +2343,7 @@ impl SctpInner {
 
             {
                 let mut received_queue = self.received_queue.lock();
-                received_queue.retain(|&tsn, _| tsn > new_cumulative_tsn);
+                received_queue.retain(|&tsn, _| tsn_gt(tsn, new_cumulative_tsn));
             }
 
             // Advance SSNs for ordered streams
